@@ -101,6 +101,8 @@ def local_name_re(body):
 
 
 def canon(rx, s):
+    # compiler temporaries left unexpanded (loop-carried values) carry MIR local numbers that shift with any edit of the function
+    s = re.sub(r'(?<![\w.:$])_\d+\b', '_t', s)
     return rx.sub('$', s) if rx is not None else s
 
 
